@@ -502,7 +502,11 @@ func TestVerif_C38(t *testing.T) {
 		cfg.debug = x.Bool("debug")
 		if httpT {
 			cfg.claims, cfg.compress = "sensitive", true
-			cfg.chunked = x.Bool("chunked")
+			if venum.Thorough() {
+				cfg.chunked = x.Bool("chunked")
+			} else {
+				cfg.chunked = cfg.debug // quick: one wire form per debug flag
+			}
 		}
 		vf38Run(x, hist, httpT, cfg)
 	})
